@@ -209,7 +209,7 @@ structure InvE (cfg : Cfg) (s : State) : Prop where
   werrNotGone : ∀ i, s.werr (.sub i) = true → s.gone i = false
   coreWatcherSt : s.st (.root .coreWatcher) = .running ∨ (s.st (.root .coreWatcher)).ended = true
   coreWatcherFailed : s.st (.root .coreWatcher) = .failed → cfg.coreWatched = true ∧ s.core = .failed
-  killerDone : (s.st (.root .daemonKiller)).ended = true → s.st (.root .daemonKiller) ≠ .failed →
+  killerDone : (s.st (.root .daemonKiller)).ended = true → s.st (.root .daemonKiller) ≠ .failed → s.killerCut = false →
     ∀ d, d < s.nDaemons → s.stopReq d = true → s.coop d = true → s.dm d ≠ .running
   stopReqRange : ∀ d, s.nDaemons ≤ d → s.stopReq d = false
   sweptReq : s.killed = true → ∀ d, d < s.nDaemons → s.dm d = .running → s.stopReq d = true
